@@ -206,7 +206,7 @@ SeqOf(k, n) == [p \in 1..n |-> SeqOps[(((k - 1) \div (IF p = n THEN 1 ELSE IF p 
 FamSeqN(n, thin) == LET ks == Picked(Pw(n) * Len(SeqInits), thin) IN
                     [p \in 1..Len(ks) |-> LET k == ks[p] IN
                          Case("seq", SeqOf(((k - 1) \div Len(SeqInits)) + 1, n), SeqInits[((k - 1) % Len(SeqInits)) + 1], 0)]
-FamSeq == FamSeqN(1, 1) \o FamSeqN(2, T(20)) \o FamSeqN(3, IF SeqLen >= 3 THEN T(1) ELSE (3 * Thin) \div 2)
+FamSeq == FamSeqN(1, 1) \o FamSeqN(2, T(20)) \o FamSeqN(3, IF SeqLen >= 3 THEN 1 ELSE (3 * Thin) \div 2)
 
 AllCases == FamUn \o FamBin \o FamBinMixed \o FamBinStr \o FamShift \o FamPow \o FamTri \o FamModPow \o FamModPowBig \o FamTriMixed \o FamConv
             \o FamNewArrayT \o FamPushInt \o FamConst \o FamPushData \o FamStack0 \o FamStackN \o FamSlot
